@@ -21,14 +21,22 @@ def tagfn_patterns():
     fn = [n for n in ast.walk(tree) if isinstance(n, ast.FunctionDef) and n.name == "tag_fn"]
     if len(fn) != 1:
         return None
+    from vf import passes as PS
+
+    consts = PS.compiled_constants(tree)  # module-level NAME = re.compile(<literal>): a refactoring may move the patterns there
     pats = []
     for c in ast.walk(fn[0]):
         if isinstance(c, ast.Call) and ast.unparse(c.func) == "re.match" and len(c.args) == 2 and ast.unparse(c.args[1]) == "token":
             a0 = c.args[0]
+            if isinstance(a0, ast.Name) and a0.id in consts:
+                pats.append((consts[a0.id][0], c.lineno))
+                continue
             try:
                 pats.append((ast.literal_eval(a0), c.lineno))
             except Exception:  # noqa: BLE001
                 return None
+        elif isinstance(c, ast.Call) and isinstance(c.func, ast.Attribute) and c.func.attr == "match" and isinstance(c.func.value, ast.Name) and c.func.value.id in consts and len(c.args) == 1 and ast.unparse(c.args[0]) == "token":
+            pats.append((consts[c.func.value.id][0], c.lineno))
     return pats
 
 
